@@ -158,7 +158,7 @@ func BindAny(source, target am.Api) (string, error) {
 
 		// set if not set
 		states := tx.TargetStates()
-		if target.Is(states) {
+		if len(target.ActiveStates(nil)) == len(states) && target.Is(states) {
 			return
 		}
 		target.Set(states, e.Args)
